@@ -73,6 +73,11 @@ type Run struct {
 func New(id, tier, level string) *Run {
 	r := &Run{ID: id, Tier: tier, Level: level, start: time.Now(), Exhaustive: true,
 		extra: map[string]interface{}{}, viol: map[string]*violation{}}
+	if old, _ := filepath.Glob(filepath.Join(Root(), "replay", id+"-*.json")); len(old) > 0 {
+		for _, f := range old {
+			os.Remove(f)
+		}
+	}
 	if s := os.Getenv("VERIF_SEED"); s != "" {
 		r.Seed, _ = strconv.Atoi(s)
 	}
